@@ -241,6 +241,21 @@ func queueOutcomeViolation(cfg qCfg, qr *qRun) string {
 	if qr.Hang != "" {
 		return "a goroutine is stuck: " + qr.Hang
 	}
+	// nothing is lost: once every consumer has been told "closed and drained", every item whose Send
+	// reported success must have been received by somebody
+	drained := qr.Finished && len(cfg.Consumers) > 0
+	for _, c := range cfg.Consumers {
+		drained = drained && qr.Closed[c] > 0
+	}
+	if drained {
+		for p, items := range qr.SentOK {
+			for _, it := range items {
+				if !seen[it] {
+					return fmt.Sprintf("item %v of producer %s was sent successfully but never received although the consumers drained the queue", it, p)
+				}
+			}
+		}
+	}
 	return ""
 }
 
